@@ -152,6 +152,17 @@ inline std::string attribution_error(Model const& m, Issued const& is, int sink,
       return "named arguments differ from the macro call site's (mid, mtext): got " + std::to_string(nargs) + " pairs";
     }
   }
+  else if (is.kind == 3 && (is.site == 148 || is.site == 153))
+  {
+    // LOGJ_ family: the keys are the variable names (sid, a, sv) / (sid, a, occurred)
+    std::string const sid = "sid=#" + std::to_string(is.id) + "#";
+    bool ok = nargs == 3 && f[3] == sid && f[4].rfind("a=", 0) == 0 && f[5].rfind(is.site == 148 ? "sv=" : "occurred=", 0) == 0;
+    if (!ok)
+    {
+      return "named arguments of a LOGJ statement differ from the variable names of the call site: got " + std::to_string(nargs) +
+        " pairs" + (nargs ? " (first: " + f[3].substr(0, 60) + ")" : std::string{});
+    }
+  }
   else if (is.kind != 3 && nargs != 0)
   {
     return "statement without named arguments was delivered with " + std::to_string(nargs) + " key/value pairs (first: " + f[3].substr(0, 60) + ")";
